@@ -84,7 +84,8 @@ def rule_literal_path(prog, roles, em):
     if not any(o.status == 'violated' for o in first):
         return first
     second = _rule_literal_path(prog, roles, em, roles.token_bodies(views='ho'))
-    if not any(o.status == 'violated' for o in second):
+    from engine import covers
+    if covers(first, second) and not any(o.status == 'violated' for o in second):
         for o in second:
             o.what += ' [read with combinator closures inlined]'
         return second
